@@ -307,7 +307,7 @@ impl Monitor for C01 {
 
 pub fn new_monitor() -> C01 {
     let mut m = C01 { rep: Report::new("C01"), case_seed: 0, last_supply: None };
-    m.rep.rule = "cases = every accepted batch and every sealed block of random histories (all transaction kinds, dependent/shuffled batches, every spelling of pool names, wrong-kind pool data, values 1..2^120, custom/test/main networks at fabricated heights); the supply vector (coins + pool reserves by the slot's canonical denominations + fee pool + tips) is recomputed from hooked snapshots before/after each batch and around each of the 7 sealing phases and its increase per denomination must not exceed the allowance computed from the inputs alone (faucet, new custom token, liquidity minted for a named deposit, reference peg nudge, TIP-909 schedule; bootstrap of built-in pools counts as genesis). Non-trivial = batch with a non-faucet member, or block with a pool request or proposer action; distinct by member hashes".into();
+    m.rep.rule = "cases = every accepted batch and every sealed block of random histories (all transaction kinds, dependent/shuffled batches, every spelling of pool names, wrong-kind pool data, values 1..2^120 (one history in six with mostly huge amounts and many swaps per block), custom/test/main networks at fabricated heights); the supply vector (coins + pool reserves by the slot's canonical denominations + fee pool + tips) is recomputed from hooked snapshots before/after each batch and around each of the 7 sealing phases and its increase per denomination must not exceed the allowance computed from the inputs alone (faucet, new custom token, liquidity minted for a named deposit, reference peg nudge, TIP-909 schedule; bootstrap of built-in pools counts as genesis). Non-trivial = batch with a non-faucet member, or block with a pool request or proposer action; distinct by member hashes".into();
     m
 }
 
@@ -335,6 +335,17 @@ pub fn run(p: &Params) -> Report {
         w.profile.withdraw = 10;
         w.profile.odd_spelling_permille = 250;
         w.profile.hostile = 15;
+        if case % 6 == 4 {
+            // whales: most amounts near their caps or log-uniform up to 2^120, many swaps per block, so that several
+            // large, non-round requests against large reserves settle together (128-bit products overflow)
+            w.profile.big_values_permille = 800;
+            w.profile.swap = 50;
+            w.profile.deposit = 16;
+            w.profile.withdraw = 6;
+            w.profile.hostile = 4;
+            w.profile.max_batch = 10;
+            mon.rep.count("whale histories");
+        }
         let blocks = 5 + (case % 12) as usize;
         run_history(&mut w, blocks, &mut [&mut mon]);
     }
